@@ -322,7 +322,14 @@ impl EmitGen<'_, '_, '_> {
             let b = self.lit_union(&second);
             vec![format!("(e: {a}): void"), format!("(e: {b}, payload: number): void")]
         } else {
-            vec![format!("(e: {}, ...args: any[]): void", self.lit_union(names))]
+            // a TS `this` pseudo-parameter is not the first parameter
+            let this = if self.g.c.chance(1, 5) {
+                self.g.label("this-pseudo-parameter-in-event-signature");
+                "this: void, "
+            } else {
+                ""
+            };
+            vec![format!("({this}e: {}, ...args: any[]): void", self.lit_union(names))]
         }
     }
 
@@ -379,7 +386,13 @@ impl EmitGen<'_, '_, '_> {
         match w {
             0 => {
                 self.g.label("emits-function-type");
-                format!("(e: {}, ...args: any[]) => void", self.lit_union(names))
+                let this = if self.g.c.chance(1, 5) {
+                    self.g.label("this-pseudo-parameter-in-event-signature");
+                    "this: void, "
+                } else {
+                    ""
+                };
+                format!("({this}e: {}, ...args: any[]) => void", self.lit_union(names))
             }
             1 => {
                 let cut = self.g.c.range(1, names.len() - 1);
